@@ -183,7 +183,7 @@ def report(v, found, listed, max_shrink=3):
 
 
 def build_all(v, pid, proof_dirs):
-    sy = vplib.sync()
+    sy = vplib.sync_cone(["Properties/C01.vo"])
     for name, e in sy.get("errors", {}).items():
         v.tie_failure("sync %s: %s" % (name, e))
     pr = vplib.prove(pid, proof_dirs, extra_targets=["Extract/ExecExtract.vo"])
